@@ -5,15 +5,16 @@
 (* acceptor (lock-step walk + every reachable struct/enum expanded at least once).            *)
 EXTENDS Describe, Families, Json
 
-CONSTANT FAMILY
-Cases == CASE FAMILY = "G1a_1" -> G1a_1(0) [] FAMILY = "G1a_2" -> G1a_2(0) [] FAMILY = "G1c" -> G1c(0) [] FAMILY = "G8" -> G8(0) [] FAMILY = "G2p_2" -> G2p_2(0)
+CONSTANTS FAMILY, NODES
+
+Cases == CASE FAMILY = "G1a_1" -> G1a_1(0) [] FAMILY = "G1a_2" -> G1a_2(0) [] FAMILY = "G1c" -> G1c(0) [] FAMILY = "G8" -> G8(0) [] FAMILY = "G2p_2" -> G2p_2(0) [] FAMILY = "G13" -> G13(NODES)
 
 VARIABLES c, id
-Init == c \in Cases /\ id \in Ids(Register(ProgOf(c), c.roots).reg)
+Init == c \in Cases /\ id \in Ids(RegOf(c))
 Next == UNCHANGED <<c, id>>
 Spec == Init /\ [][Next]_<<c, id>>
 
-Reg == Register(ProgOf(c), c.roots).reg
+Reg == RegOf(c)
 D == Description(Reg, id)
 DesignC13 == D.ok /\ DescAccepts(Reg, id, D.toks)
 Emit == id = 0 => PrintT("CASE " \o ToJson([fam |-> c.fam, reg |-> Reg]))
